@@ -222,6 +222,41 @@ def build_world():
              raises={Exception: lambda cx: z3.BoolVal(True)}, may_raise_any=True,
              loops={1: LoopSpec(invariant=disc_inv1, ghost_index='_k1'), 2: LoopSpec(invariant=disc_inv2, ghost_index='_k2')})
 
+    # ---- signals originated by the bus itself: sendSignal reaches the one connection it is meant for (addressed to its unique
+    #      name), broadcastSignal is offered to the match rules once and written to nobody directly
+    def sig_fields(cx, mref):
+        mv = cx.new(mref)
+        return z3.And(z3.Not(mv.member.none), mv.member.val.term == cx.a('member'),
+                      z3.Not(mv.path.none), mv.path.val.term == cx.a('path'), z3.Not(mv.interface.none), mv.interface.val.term == cx.a('interface'))
+
+    def sendsig_post(cx):
+        p = cx.args['p']
+        po, pn = cx.old(p), cx.new(p)
+        r = VRef(cx.old(cx.args['self']).router, 'Router')
+        p0t = cx.ctx.skolem('p0_conn', IntSort)
+        p0 = VRef(p0t, BP)
+        m = VRef(pn.g_lastrecv, M)
+        return [('written once to the connection it is meant for', pn.g_nrecv == po.g_nrecv + 1),
+                ('to no other connection', z3.Implies(p0t != p.term, cx.new(p0).g_nrecv == cx.old(p0).g_nrecv)),
+                ('not to the match rules', cx.new(r).g_routed == cx.old(r).g_routed),
+                ('what is written is the signal asked for', sig_fields(cx, m)),
+                ('it is addressed to that connection', z3.And(cx.new(m).destination.none == po.uniqueName.none,
+                        z3.Implies(z3.Not(po.uniqueName.none), cx.new(m).destination.val.term == po.uniqueName.val.term)))]
+    SIGP = {'self': Ref(B), 'p': Ref(BP), 'member': STR, 'signature': Opt(STR), 'body': STR, 'path': STR, 'interface': STR}
+    contract(w, 'txdbus.bus.Bus.sendSignal', SIGP, ensures=sendsig_post,
+             raises={Exception: lambda cx: z3.BoolVal(True)}, may_raise_any=True,
+             modifies=lambda cx: mods(cx) + [('*', M + '.' + f) for f in MSGF])
+
+    def bcast_post(cx):
+        r = VRef(cx.old(cx.args['self']).router, 'Router')
+        m = VRef(cx.new(r).g_lastrouted, M)
+        return [('offered to the match rules once', cx.new(r).g_routed == cx.old(r).g_routed + 1),
+                ('written to no connection directly', cx.unchanged(BP + '.g_nrecv')),
+                ('what is offered is the signal asked for', sig_fields(cx, m)), ('it has no destination', cx.new(m).destination.none)]
+    contract(w, 'txdbus.bus.Bus.broadcastSignal', {k: v for k, v in SIGP.items() if k != 'p'}, ensures=bcast_post,
+             raises={Exception: lambda cx: z3.BoolVal(True)}, may_raise_any=True,
+             modifies=lambda cx: mods(cx) + [('*', M + '.' + f) for f in MSGF])
+
     def raw_post(cx):
         s = cx.args['self']
         o, n = cx.old(s), cx.new(s)
@@ -695,7 +730,7 @@ def build(tier='quick'):
                                              'errorMessage': VStr(msg) if I.ctx.branch(has) else VNone()})
             return super().contract_exception(I, cls)
     return Spec('C14', w, lambda world: Models14(world),
-                ['txdbus.bus.Bus.sendMessage', 'txdbus.bus.Bus.messageReceived', 'txdbus.bus.Bus.clientConnected', 'txdbus.bus.Bus.clientDisconnected',
+                ['txdbus.bus.Bus.sendSignal', 'txdbus.bus.Bus.broadcastSignal', 'txdbus.bus.Bus.sendMessage', 'txdbus.bus.Bus.messageReceived', 'txdbus.bus.Bus.clientConnected', 'txdbus.bus.Bus.clientDisconnected',
                  'txdbus.bus.BusProtocol.rawDBusMessageReceived'],
                 replay=replay, bounded=[{'name': 'bus-histories', 'run': run_bounded}],
                 trusted=['dict = array + domain; queues = Seq(Ref); int -> decimal string by z3 int.to.str (injective on naturals)'],
